@@ -65,6 +65,15 @@ pub fn whoami() -> i64 {
 }
 
 fn do_emit(site: i64, kind: u8, val: u64) {
+    if kind == 6 {
+        // a span with an explicit (absent) parent: its own macro arm
+        drop(sites::make_root_span(site as usize, val));
+        return;
+    }
+    if kind == 7 {
+        sites::emit_event_root(site as usize, val);
+        return;
+    }
     if kind >= 2 {
         // the less common macro forms (no `target:`); the generator gives them a site of target 0
         let level = sites::SITES[site as usize].0;
@@ -96,7 +105,16 @@ pub fn exec_step(gi: usize, t: usize, s: &Value, guards: &mut Vec<dispatch::Defa
                 (k as usize) < sl.handles.len() && sl.filters[k as usize].is_none()
             };
             if free {
-                let d = Dispatch::new(RecCollect::new(k as usize, f.clone()));
+                // `st`: a dispatcher over a `&'static` collector (`Dispatch::from_static`) instead of an owned one
+                let d = if s["st"].as_bool().unwrap_or(false) {
+                    let c: &'static RecCollect = Box::leak(Box::new(RecCollect::new(k as usize, f.clone())));
+                    Dispatch::from_static(c)
+                } else if s["late"].as_bool().unwrap_or(false) {
+                    // a collector that configures its filter in `on_register_dispatch`
+                    Dispatch::new(RecCollect::new(k as usize, f.clone()).with_late_init())
+                } else {
+                    Dispatch::new(RecCollect::new(k as usize, f.clone()))
+                };
                 let mut sl = SLOTS.lock().unwrap();
                 sl.handles[k as usize] = Some(d);
                 sl.filters[k as usize] = Some(f);
@@ -110,7 +128,8 @@ pub fn exec_step(gi: usize, t: usize, s: &Value, guards: &mut Vec<dispatch::Defa
             drop(d);
         }
         "open" => {
-            let d = SLOTS.lock().unwrap().handles.get(k as usize).cloned().flatten();
+            // `none`: a scope that silences its thread (`Dispatch::none()`), whatever the global default is
+            let d = if s["none"].as_bool().unwrap_or(false) { Some(Dispatch::none()) } else { SLOTS.lock().unwrap().handles.get(k as usize).cloned().flatten() };
             match d {
                 Some(d) => guards.push(dispatch::set_default(&d)),
                 None => h.applied = false,
@@ -121,7 +140,7 @@ pub fn exec_step(gi: usize, t: usize, s: &Value, guards: &mut Vec<dispatch::Defa
             None => h.applied = false,
         },
         "with" => {
-            let d = SLOTS.lock().unwrap().handles.get(k as usize).cloned().flatten();
+            let d = if s["none"].as_bool().unwrap_or(false) { Some(Dispatch::none()) } else { SLOTS.lock().unwrap().handles.get(k as usize).cloned().flatten() };
             match d {
                 Some(d) => {
                     let inner: Vec<Value> = s["inner"].as_array().cloned().unwrap_or_default();
@@ -299,8 +318,8 @@ impl Engine for CoreEngine {
     }
     fn rule(&self, prop: &str) -> String {
         match prop {
-            "C01" => "history over {new collector with filter (static, dynamic, or reloadable: two static configurations, the flip rebuilds the interest cache and moves the hint), drop handle, open/close scope, with_default (optionally panicking), set_global_default, emit event/span at a pool site (the collector's own callback may panic, caught), enabled! probe, rebuild_interest_cache, flip} on 1-3 threads in a seeded total order, a quarter of the runs as seeded schedules over a shared pair of sites; non-trivial = at least one expected delivery AND one expected suppression after at least one collector change; distinct = distinct plan digest".into(),
-            "C02" => "history (op granularity, total order) or schedule (sync granularity: every atomic op of tracing-core is a preemption point) over {open/close scope, with_default incl. unwinding, set_global_default from any thread, emit (the collector's callback may panic, caught), Dispatch identity read}, 1-4 threads, a third of the runs with thread-local destructors that open and close a scope while their thread exits, including dispatcher use before the global default exists; non-trivial = at least one emission expected at a scoped collector and one at the global default (or discarded); distinct = distinct (plan, schedule digest)".into(),
+            "C01" => "history over {new collector with filter (static, dynamic, or reloadable: two static configurations, the flip rebuilds the interest cache and moves the hint; a quarter of the collectors configure themselves only in on_register_dispatch), drop handle, open/close scope, with_default (optionally panicking), set_global_default, emit event/span at a pool site (contextual and explicit-parent macro arms, less common event! forms; the collector's own callback may panic, caught), enabled! probe, rebuild_interest_cache, flip} on 1-3 threads in a seeded total order, a quarter of the runs as seeded schedules over a shared pair of sites; non-trivial = at least one expected delivery AND one expected suppression after at least one collector change; distinct = distinct plan digest".into(),
+            "C02" => "history (op granularity, total order) or schedule (sync granularity: every atomic op of tracing-core is a preemption point) over {open/close scope (a quarter of the collectors behind Dispatch::from_static, an eighth of the scopes Dispatch::none()), with_default incl. unwinding, set_global_default from any thread, emit (the collector's callback may panic, caught), Dispatch identity read}, 1-4 threads, a third of the runs with thread-local destructors that open and close a scope while their thread exits, including dispatcher use before the global default exists; non-trivial = at least one emission expected at a scoped collector and one at the global default (or discarded); distinct = distinct (plan, schedule digest)".into(),
             _ => "2-3 threads x <=4 ops from {first hit of shared pool sites, Dispatch::new (a third of the collectors reloadable), drop, set_default+emit, set_global_default, rebuild_interest_cache, flip of a reloadable collector followed by its rebuild} under seeded schedules at atomic-op/lock granularity, then a quiescence probe phase; non-trivial = at least one scheduling decision with >=2 runnable threads while two threads touched the same callsite or the dispatcher list; distinct = distinct (plan, schedule digest)".into(),
         }
     }
@@ -426,6 +445,27 @@ impl Engine for CoreEngine {
             let mut global_done = false;
             let site_base = rng.below(sites::N as u64);
             let mut touched = vec![false; nthreads as usize]; // thread touched its dispatcher TLS before the global install
+            let mut nsteps = nsteps;
+            if prop == "C01" && sync && rng.chance(1, 2) {
+                // burst shape: the collectors exist before any thread starts; every thread opens a scope and makes
+                // its first hit of one shared callsite at once
+                let n = rng.range(1, 2);
+                for k in 0..n {
+                    let f = gen_filter(&mut rng, allow_dyn);
+                    if f["mode"].as_u64().unwrap_or(0) != 0 {
+                        flippable.push(k);
+                    }
+                    pre.push(json!({"t": 0, "op": "new", "k": k, "f": f}));
+                    created.push(k);
+                }
+                let kind = rng.below(2);
+                for t in 0..nthreads {
+                    steps.push(json!({"t": t, "op": "open", "k": *rng.pick(&created)}));
+                    open_depth[t as usize] += 1;
+                    steps.push(json!({"t": t, "op": "emit", "site": site_base, "kind": kind}));
+                }
+                nsteps = rng.range(0, 6);
+            }
             for i in 0..nsteps {
                 let t = rng.below(nthreads);
                 let tt = t as usize;
@@ -437,7 +477,13 @@ impl Engine for CoreEngine {
                     if f["mode"].as_u64().unwrap_or(0) != 0 {
                         flippable.push(k);
                     }
-                    steps.push(json!({"t": t, "op": "new", "k": k, "f": f}));
+                    if prop == "C02" && rng.chance(1, 4) {
+                        steps.push(json!({"t": t, "op": "new", "k": k, "f": f, "st": true}));
+                    } else if prop == "C01" && rng.chance(1, 4) {
+                        steps.push(json!({"t": t, "op": "new", "k": k, "f": f, "late": true}));
+                    } else {
+                        steps.push(json!({"t": t, "op": "new", "k": k, "f": f}));
+                    }
                     created.push(k);
                     continue;
                 }
@@ -450,6 +496,9 @@ impl Engine for CoreEngine {
                     // a less common form of the event macro; those sites are the target-0 column of the pool
                     kind = 2 + rng.below(4);
                     site = (site / 4) * 4;
+                } else if prop == "C01" && rng.chance(1, 6) {
+                    // explicit-parent forms (parent: None) of span! and event!
+                    kind = 6 + rng.below(2);
                 }
                 let st = match roll {
                     12..=19 => {
@@ -458,7 +507,11 @@ impl Engine for CoreEngine {
                             if !global_done {
                                 touched[tt] = true;
                             }
-                            json!({"t": t, "op": "open", "k": k})
+                            if prop == "C02" && rng.chance(1, 8) {
+                                json!({"t": t, "op": "open", "k": -1, "none": true})
+                            } else {
+                                json!({"t": t, "op": "open", "k": k})
+                            }
                         } else {
                             json!({"t": t, "op": "emit", "site": site, "kind": kind})
                         }
@@ -477,7 +530,11 @@ impl Engine for CoreEngine {
                         if !global_done {
                             touched[tt] = true;
                         }
-                        json!({"t": t, "op": "with", "k": k, "inner": inner, "panic": rng.chance(1, 3)})
+                        if prop == "C02" && rng.chance(1, 8) {
+                            json!({"t": t, "op": "with", "k": -1, "none": true, "inner": inner, "panic": rng.chance(1, 3)})
+                        } else {
+                            json!({"t": t, "op": "with", "k": k, "inner": inner, "panic": rng.chance(1, 3)})
+                        }
                     }
                     34..=39 => {
                         if prop == "C01" && (sync || rng.chance(1, 2)) {
@@ -690,7 +747,7 @@ fn oracle(prop: &str, sync: bool, hist: &[Hist], log: &[Rec], filters: &[Option<
         }
     };
     let check_emission = |t: usize, site: i64, kind: u8, val: u64, inv: u64, ret: u64, receiver_opts: &[i64], _flipped: &[bool], expd: &mut u64, exps: &mut u64, f1sig: bool| {
-        let want_kind = if kind == 1 { "new_span" } else { "event" };
+        let want_kind = if kind == 1 || kind == 6 { "new_span" } else { "event" };
         let got: Vec<&Rec> = log.iter().filter(|r| r.thread == t && r.stamp > inv && r.stamp < ret && r.kind == want_kind && r.val == val).collect();
         let (lvl, tg) = sites::SITES[site as usize];
         // expected sets per allowed receiver
@@ -809,7 +866,9 @@ fn oracle(prop: &str, sync: bool, hist: &[Hist], log: &[Rec], filters: &[Option<
             let mut live = handle_live.clone();
             for s in &scopes {
                 for &k in s {
-                    live[k as usize] = true;
+                    if k >= 0 {
+                        live[k as usize] = true;
+                    }
                 }
             }
             if global_k >= 0 {
